@@ -146,7 +146,7 @@ def body_factory(tier, seed):
 
 
 def run(rep, tier, seed):
-    return C.standard_run(rep, PROP, ["Model/CaseNet.vo"], body_factory(tier, seed), rule=(
+    return C.standard_run(rep, PROP, ["Model/CaseNet.vo"], [body_factory(tier, seed + 1000 * i) for i in range(3 if tier == "thorough" else 1)], rule=(
         "for every one of the 103 (version, action) pairs: schema-valid request and response instances from the generator "
         "(all properties / only required / falsy values / boundary / single optionals), nested values given as data-type "
         "objects or as dicts, through two real endpoints joined by in-memory connections (real start() loops, real call()); "
